@@ -270,6 +270,9 @@ func writeForm(w *WOpts, dest string) string {
 	if 0 <= w.Color {
 		b.WriteString(" :color " + tn(w.Color))
 	}
+	if w.TimeKW {
+		b.WriteString(" :time-format tf :time-wrap tw")
+	}
 	b.WriteString(")")
 	return b.String()
 }
@@ -322,6 +325,17 @@ func (w *world) parseAll(entry, text string) ([]*flavors.Instance, *sl.Err) {
 	case "json-parse-stream":
 		src = `(let ((acc '())) (json-parse ` + collect + ` (make-string-input-stream txt)) acc)`
 		list = true
+	case "json-parse-strict-stream":
+		src = `(let ((acc '())) (json-parse ` + collect + ` (make-string-input-stream txt) t) acc)`
+		list = true
+	case "json-parse-octets":
+		w.let("oct", slip.Octets([]byte(text)))
+		src = `(let ((acc '())) (json-parse ` + collect + ` oct) acc)`
+		list = true
+	case "json-parse-strict-octets":
+		w.let("oct", slip.Octets([]byte(text)))
+		src = `(let ((acc '())) (json-parse ` + collect + ` oct t) acc)`
+		list = true
 	case "bag-read":
 		src = `(bag-read (make-instance 'bag-flavor) (make-string-input-stream txt))`
 	case "init-read":
@@ -340,10 +354,14 @@ func (w *world) parseAll(entry, text string) ([]*flavors.Instance, *sl.Err) {
 		}
 		src = `(let ((acc '())) (each-bag fname ` + collect + `) acc)`
 		list = true
-	case "discover":
+	case "discover", "discover-strict", "discover-stream", "discover-strict-stream", "discover-octets":
 		// the document embedded in prose; the callback returns nil (= go on)
-		w.let("txt", slip.String("log line 17: "+text+" :end of line"))
-		src = `(let ((acc '())) (discover-json (lambda (x) (setq acc (cons x acc)) nil) txt) acc)`
+		prose := "log line 17: " + text + " :end of line"
+		w.let("txt", slip.String(prose))
+		w.let("oct", slip.Octets([]byte(prose)))
+		arg := map[string]string{"discover": "txt", "discover-strict": "txt t", "discover-stream": "(make-string-input-stream txt)",
+			"discover-strict-stream": "(make-string-input-stream txt) t", "discover-octets": "oct"}[entry]
+		src = `(let ((acc '())) (discover-json (lambda (x) (setq acc (cons x acc)) nil) ` + arg + `) acc)`
 		list = true
 	default:
 		panic("unknown entry " + entry)
@@ -541,6 +559,12 @@ func execInts(x *fw.Ctx, c Case) {
 		check(`(bag-set (make-bag "[0]") val "[0]")`, loc{{Idx: 0, Nth: true}, {Key: "n"}}, "[0].m[0]")
 	case "send-set":
 		check(`(send (make-bag "{a:1}") :set v "a")`, loc{{Key: "a"}}, "a")
+	case "set-in-hash":
+		w.let("val", slip.HashTable{slip.String("n"): fix, slip.String("l"): slip.List{fix}, slip.String("h"): slip.HashTable{slip.String("m"): fix}})
+		check(`(bag-set (make-bag "{}") val "t")`, loc{{Key: "t"}, {Key: "h"}, {Key: "m"}}, "t.l[0]")
+	case "copy-as-bag":
+		w.let("h", holder())
+		check(`(bag-set h (bag-get h "k" t) "c")`, loc{{Key: "c"}, {Key: "n"}}, "c.n")
 	case "make-bag-native":
 		w.let("val", slip.List{fix, slip.List{slip.List{slip.String("n"), slip.Tail{Value: fix}}}})
 		check(`(make-bag val)`, loc{{Idx: 1, Nth: true}, {Key: "n"}}, "[0]")
@@ -654,7 +678,12 @@ func execText(x *fw.Ctx, c Case) {
 	}
 	t1 := fromAny(b1.Any)
 	if d := diffLoose(c.Doc, t1); d != nil {
-		x.Fail(fmt.Sprintf("text fail=parse-fidelity in=%s at=%s", c.Fmt, d.kinds()), "the bag parsed from %s text differs from the document the text denotes %s\ntext: %s", c.Fmt, d, c.Text)
+		esc := ""
+		if c.Esc != "" && d.A == "str" && d.B == "str" {
+			esc = " esc=" + c.Esc
+			x.Cover("text:escape-style=" + c.Esc)
+		}
+		x.Fail(fmt.Sprintf("text fail=parse-fidelity in=%s at=%s%s", c.Fmt, d.kinds(), esc), "the bag parsed from %s text differs from the document the text denotes %s\ntext: %s", c.Fmt, d, c.Text)
 		// the round trip relation is still judged on what the bag holds
 	}
 	w.let("b", b1)
@@ -678,10 +707,20 @@ func execText(x *fw.Ctx, c Case) {
 		}
 		src = writeForm(wo, dest)
 	}
+	if c.Time != nil && wo.TimeKW {
+		// the time setting comes from the keywords of this call only; it is in
+		// force again for the reading of the written text
+		x.Cover("text:time-setting-by-write-keywords")
+		src = `(progn (setq *bag-time-wrap* nil) (setq *bag-time-format* nil) (let ((out ` + src + `)) (setq *bag-time-format* tf) (setq *bag-time-wrap* tw) out))`
+	}
 	res, err := w.eval(src)
 	if err != nil {
 		x.Fail(fmt.Sprintf("text fail=write-%s fmt=%s", errSlug(err), wo.label()), "%s => %s\nbag: %s", src, err, t1.canon())
 		return
+	}
+	if c.Time != nil && wo.TimeKW {
+		// the keywords of one call must not have become the setting
+		_, _ = w.eval(`(setq *bag-time-format* tf) (setq *bag-time-wrap* tw)`)
 	}
 	out, ok := res.(slip.String)
 	if !ok {
@@ -724,6 +763,86 @@ func execText(x *fw.Ctx, c Case) {
 		reparse("json-parse-strict")
 	}
 	x.CoverN("text:nodes", t1.size())
+	coverDoc(x, "text", c.Doc)
+}
+
+// coverDoc counts what a document is made of: nesting depth, scalar kinds,
+// the classes of characters in its strings and member names, container sizes.
+func coverDoc(x *fw.Ctx, kind string, doc *Node) {
+	x.Cover(fmt.Sprintf("%s:doc-depth=%d", kind, doc.depth()))
+	cnt := map[string]int{}
+	doc.walkNodes(func(n *Node) {
+		switch n.K {
+		case kStr:
+			for _, cl := range strClasses(n.S) {
+				cnt["string:"+cl]++
+			}
+			cnt["scalar:str"]++
+		case kObj:
+			for _, k := range n.Keys {
+				for _, cl := range strClasses(k) {
+					cnt["member-name:"+cl]++
+				}
+			}
+			cnt["container:"+sizeClass(len(n.A))+"-object"]++
+		case kArr:
+			cnt["container:"+sizeClass(len(n.A))+"-array"]++
+		case kInt:
+			switch {
+			case n.I > 1<<53 || n.I < -(1<<53):
+				cnt["scalar:int>2^53"]++
+			default:
+				cnt["scalar:int"]++
+			}
+		default:
+			cnt["scalar:"+n.subKind()]++
+		}
+	})
+	for k, v := range cnt {
+		x.CoverN(kind+":"+k, v)
+	}
+}
+
+func sizeClass(n int) string {
+	switch {
+	case n == 0:
+		return "empty"
+	case n == 1:
+		return "single"
+	case n <= 5:
+		return "small"
+	}
+	return "wide"
+}
+
+func strClasses(s string) []string {
+	if s == "" {
+		return []string{"empty"}
+	}
+	set := map[string]bool{}
+	for _, c := range s {
+		switch {
+		case c == '"' || c == '\\':
+			set["quote-or-backslash"] = true
+		case c < 0x20 || c == 0x7f:
+			set["control"] = true
+		case c < 0x80:
+			set["ascii"] = true
+		case c < 0x10000:
+			set["non-ascii-bmp"] = true
+		default:
+			set["astral"] = true
+		}
+	}
+	if 64 < len(s) {
+		set["long"] = true
+	}
+	out := make([]string, 0, len(set))
+	for k := range set {
+		out = append(out, k)
+	}
+	sort.Strings(out)
+	return out
 }
 
 // ---------------------------------------------------------------- parse histories
@@ -1049,9 +1168,18 @@ func frameDiff(old, cur *Node, anchor loc) *Diff {
 
 func (w *world) pathArg(op *Op) string {
 	w.let("pth", slip.String(op.PStr))
+	if op.PList != 0 {
+		if l, ok := pathList(op.Path, op.PList == 2); ok {
+			w.x.Cover("path:arg=bag-path-from-list")
+			w.let("plist", l)
+			return "(make-bag-path plist)"
+		}
+	}
 	if op.PObj {
+		w.x.Cover("path:arg=bag-path-from-string")
 		return "(make-bag-path pth)"
 	}
+	w.x.Cover("path:arg=string")
 	return "pth"
 }
 
@@ -1382,6 +1510,9 @@ func (w *world) observeAll(model *Node, b *flavors.Instance, phase string) bool 
 		p := m.at.path()
 		for _, o := range []string{"get", "has"} {
 			op := Op{Op: o, Path: p, PStr: p.render(i % 8), PObj: i%5 == 0, Send: i%3 == 0}
+			if i%7 == 3 {
+				op.PList = 1 + i%2
+			}
 			if !w.observeQuery(model, &op, phase) {
 				return false
 			}
@@ -1592,6 +1723,10 @@ func (w *world) setValue(op *Op) (string, *sl.Err) {
 	case "stream":
 		w.let("valtxt", slip.String(compactJSON(op.Val)))
 		return "(make-string-input-stream valtxt)", nil
+	case "hash":
+		w.let("val", toLispHash(op.Val, false))
+	case "hash-assoc":
+		w.let("val", toLispHash(op.Val, true))
 	default:
 		w.let("val", toLisp(op.Val))
 	}
@@ -1616,6 +1751,12 @@ func execPath(x *fw.Ctx, c Case) {
 	w.let("b", b)
 	if !w.observeAll(model, b, "start") {
 		return
+	}
+	x.Cover(fmt.Sprintf("path:history-length=%d", len(c.Ops)))
+	if c.Doc.K == kArr {
+		x.Cover("path:root=array")
+	} else {
+		x.Cover("path:root=object")
 	}
 	var trace []string
 	w.obs["ops"] = &trace
@@ -1756,11 +1897,17 @@ func execPath(x *fw.Ctx, c Case) {
 				case op.Op == "modify":
 					// identity through the Lisp bridge: name the kind of value that is lost
 					sig = fmt.Sprintf("path op=modify as-bag=%v fail=wrong-document lost=%s", op.AsBag, d.A)
+				case strings.HasPrefix(op.ValMode, "hash"):
+					// a hash-table value: name the kind of member that is lost
+					sig = fmt.Sprintf("path op=set val=hash-table fail=wrong-document at=%s", d.kinds())
 				}
 				x.Fail(sig, "%s\n gives %s\n model %s\n %s", describe(), short(actual.canon()), short(res.canon()), d)
 				return
 			}
 			x.Cover("path:" + op.Op + "-as-model")
+			if !w.compareAgrees(model, actual, phase) {
+				return
+			}
 		default:
 			// the notation does not define the result: the call returned
 			// normally, so the property's literal reading applies
@@ -1782,6 +1929,10 @@ func execPath(x *fw.Ctx, c Case) {
 				if !op.Path.hasDescent() || !literalV.isContainer() {
 					for _, m := range ms {
 						if d := diffAt(literalV, m.node, m.at.String()); d != nil && op.Path.definite() {
+							if strings.HasPrefix(op.ValMode, "hash") {
+								x.Fail(fmt.Sprintf("path op=set val=hash-table fail=wrong-document at=%s", d.kinds()), "%s returned normally but the path now holds %s", describe(), d)
+								return
+							}
 							x.Fail(sigBase+" fail=get-after-set why="+coarseWhy(why), "%s returned normally but the path now holds %s", describe(), d)
 							return
 						}
@@ -1858,6 +2009,8 @@ func exec(x *fw.Ctx, c Case) {
 		execMulti(x, c)
 	case "ints":
 		execInts(x, c)
+	case "alias":
+		execAlias(x, c)
 	default:
 		x.Trivial()
 	}
@@ -1866,11 +2019,14 @@ func exec(x *fw.Ctx, c Case) {
 func init() {
 	fw.Register(fw.Spec[Case]{
 		ID: "C18",
-		Rule: "seven case kinds. text: generated document (depth<=5, every scalar kind, odd keys) rendered by the harness as JSON or SEN -> bag (10 entry points) -> bag-write under generated options -> parsed again; " +
+		Rule: "eight case kinds. text: generated document (depth<=5, every scalar kind, odd keys) rendered by the harness as JSON or SEN -> bag (21 entry points) -> bag-write under generated options -> parsed again; " +
 			"native: bag -> bag-native -> bag; path: document + history of <=6 set/parse/remove/modify/get/has/walk/get-all steps with generated paths, judged by a reference JSON-path model and re-observed on every location after each step; " +
 			"bridge: generated Go value -> SimpleObject -> Simplify / ObjectToBag; parsehist: a sequence of valid and invalid texts parsed one after the other, each valid one must still give its document; " +
 			"ints: integers around 2^31, 2^53, 2^62, 2^63-1, -2^63 pushed through every Lisp->bag and bag->Lisp route, judged on the exact value; multi: several documents in one input for each-bag / json-parse (count, order, independence). " +
 			"bag-scan is re-observed after every path step (every node once, parents first, reported paths usable by get). Further deterministic blocks: the full bag-write option grid (pretty x depth x right-margin x json x color) over 10 fixed documents, every single removal on a root array and a root object with negative indices followed by more removals. " +
+			"alias: a part of a bag copied to another place of the same bag through the results of get / get-all / walk as bag (or one bag value stored twice, or returned by the function of bag-modify for every match), then one copy changed and the other - a disjoint path - re-observed. " +
+			"Third-round deterministic blocks: the alias routes on a fixed document, hash-table values, texts moved byte by byte over the 4096-byte read buffer edge of the stream parsers, the time-wrap key as an ordinary member, surrogate pair escapes, new members below one of several matches of a stored (also empty) container; bag-compare is re-observed after every modifying step; paths are also given as (make-bag-path list). " +
+			"avoided in 7 of 8 seeded cases: the constructs of the open findings (token-like strings, json.Number values, surrogate escapes, false/empty containers in Lisp form, :false and bignums inside hash-tables). " +
 			"Each kind starts with a deterministic probe block (every scalar of the pools x format x options, every operation x path shape on a fixed document); " +
 			"distinct = distinct case JSON; non-trivial = at least one conversion or path step was judged",
 		N:     nCases,
